@@ -1,9 +1,4 @@
 /* Default (no-op, weak) implementations of the ROOTSIM_VERIF hooks; a harness that needs
- * scheduling or tracing defines strong versions. */
+ * scheduling or tracing defines strong versions. (Header form for single-TU harnesses.) */
 #pragma once
-#include <stdint.h>
-__attribute__((weak)) void verif_yield(unsigned point) { (void)point; }
-__attribute__((weak)) void verif_trace(unsigned kind, uint64_t a, uint64_t b, uint64_t c)
-{
-	(void)kind; (void)a; (void)b; (void)c;
-}
+#include "vhooks_default.c"
